@@ -3,6 +3,7 @@
 Facts come from tools/astfacts (syn 2).  No types, no resolved callees: rules built on this
 module are phrased over names that are unambiguous in the file and fail closed when an
 anchor is not found exactly once."""
+import re
 from . import extract
 
 
@@ -43,7 +44,138 @@ class AnchorMissingAst(Exception):
 def load(ctx, files):
     facts, info = extract.ast_facts(files)
     ctx.extract_info.append(info)
-    return {f: AstFile(f, j) for f, j in facts.items()}
+    out = {f: AstFile(f, j) for f, j in facts.items()}
+    inline_helpers(out)
+    return out
+
+
+# ------------------------------------------------------------------------------------
+# helper inlining (the syntax-tree counterpart of core/inline.py)
+#
+# A function of an analysed file that is not in rules/known_functions.json["ast"][file] is a helper that an edit
+# extracted: it has no rule of its own.  Every call of it - `helper(..)`, `Self::helper(..)`, `self.helper(..)` - from a
+# function of the loaded files is replaced by an `inlined` node that carries the helper's body, so that the walkers and
+# the path enumeration see its statements where they are used.  In the path enumeration a `return` / tail value of the
+# helper ends the inlined node only, and `helper(..)?` continues on the Ok edge for the helper's Ok results and takes
+# the error exit for its Err results.
+# ------------------------------------------------------------------------------------
+STD_METHOD_NAMES = {"len", "get", "map", "iter", "next", "clone", "push", "insert", "remove", "contains", "is_empty", "unwrap", "expect", "ok", "err", "and_then", "or_else",
+                    "as_ref", "as_mut", "to_string", "into", "from", "read", "write", "lock", "send", "recv", "take", "clear", "extend", "drain", "first", "last", "min", "max",
+                    "new", "default", "fmt", "eq", "cmp", "hash", "drop", "deref", "borrow", "append", "flush", "sync_all", "open", "create", "join", "split", "find", "position"}
+_KNOWN_AST = None
+
+
+def known_ast():
+    global _KNOWN_AST
+    if _KNOWN_AST is None:
+        import json
+        import os
+        p = os.path.join(os.path.dirname(os.path.dirname(os.path.abspath(__file__))), "known_functions.json")
+        try:
+            with open(p) as f:
+                _KNOWN_AST = json.load(f).get("ast")
+        except FileNotFoundError:
+            _KNOWN_AST = None
+    return _KNOWN_AST
+
+
+def _subst(n, mapping):
+    if isinstance(n, list):
+        for x in n:
+            _subst(x, mapping)
+        return
+    if not isinstance(n, dict):
+        return
+    if n.get("k") == "let":
+        # a binding that shadows a parameter ends the substitution for the rest of the block; rare in helpers - keep simple:
+        pass
+    for k_, v in n.items():
+        if isinstance(v, (dict, list)):
+            _subst(v, mapping)
+    if n.get("k") == "path" and n.get("p") in mapping:
+        n["p"] = mapping[n["p"]]
+    if isinstance(n.get("text"), str):
+        t = n["text"]
+        for a, b_ in mapping.items():
+            t = re.sub(r"(?<![\w.])(?<!\. )%s(?!\w)" % re.escape(a), b_, t)
+        n["text"] = t
+
+
+def inline_helpers(files, max_depth=3):
+    import copy
+    import os
+    known = known_ast()
+    if known is None or os.environ.get("VERIF_NO_INLINE") == "1":
+        return
+    helpers = {}
+    for rel, f in files.items():
+        kn = known.get(rel)
+        if kn is None:
+            continue
+        for it in f.items:
+            if it["k"] == "fn" and it["name"] not in kn:
+                helpers.setdefault(it["name"], []).append(it)
+    helpers = {n: v[0] for n, v in helpers.items() if len(v) == 1}
+    if not helpers:
+        return
+
+    def target(n):
+        if not isinstance(n, dict):
+            return None
+        if n.get("k") == "call" and isinstance(n.get("f"), dict) and n["f"].get("k") == "path":
+            nm = n["f"]["p"].split("::")[-1]
+            pre = n["f"]["p"].split("::")[:-1]
+            if nm in helpers and (not pre or pre[-1] in ("Self", "self", "crate", "super") or pre[-1][:1].isupper()):
+                return nm
+        if n.get("k") == "mcall" and n["method"] in helpers:
+            h = helpers[n["method"]]
+            takes_self = bool(h.get("params")) and h["params"][0]["name"] in ("self", "&self", "&mut self", "mut self")
+            if text(n["recv"]) in ("self", "Self", "&self", "&mutself"):
+                return n["method"]
+            # a method of another type of the file (`stored.to_snapshot()`): only when the name cannot be a std method
+            if takes_self and n["method"] not in STD_METHOD_NAMES and len(n.get("args", [])) == len(h["params"]) - 1:
+                return n["method"]
+        return None
+
+    def rewrite(n, stack):
+        if isinstance(n, list):
+            for i, x in enumerate(n):
+                n[i] = rewrite(x, stack)
+            return n
+        if not isinstance(n, dict):
+            return n
+        for k_, v in list(n.items()):
+            if isinstance(v, (dict, list)):
+                n[k_] = rewrite(v, stack)
+        nm = target(n)
+        if nm and nm not in stack and len(stack) < max_depth:
+            h = helpers[nm]
+            body = rewrite(copy.deepcopy(h["body"]), stack + (nm,))
+            # parameter names stand for the argument expressions at this call site (text-level substitution, so that
+            # rules which compare expression texts see `wal_key(topic, cursor.segment)` rather than `wal_key(topic, segment)`)
+            mapping = {}
+            params = [p_["name"].replace("mut ", "").strip() for p_ in h.get("params", [])]
+            args_ = list(n.get("args", []) or [])
+            if params and params[0] in ("self", "&self", "&mut self"):
+                if n.get("k") == "mcall":
+                    mapping["self"] = text(n["recv"])
+                params = params[1:]
+            for pn_, an_ in zip(params, args_):
+                at_ = text(an_)
+                if re.match(r"^\w+$", pn_) and at_ and not at_.startswith("<"):
+                    mapping[pn_] = at_[1:] if at_.startswith("&") and re.match(r"^&\w+(\.\w+)*$", at_) else at_
+            mapping = {k_: v_ for k_, v_ in mapping.items() if k_ != v_}
+            if mapping:
+                _subst(body, mapping)
+            return {"k": "inlined", "name": nm, "line": n.get("line"), "text": n.get("text", ""), "args": n.get("args", []), "recv": n.get("recv") if n.get("k") == "mcall" else None,
+                    "params": [p_["name"] for p_ in h.get("params", [])], "body": body, "callee_line": h.get("line")}
+        return n
+    for rel, f in files.items():
+        for it in f.items:
+            if it["k"] == "fn" and it["name"] not in helpers:
+                it["body"] = rewrite(it["body"], (it["name"],))
+    for rel, f in files.items():
+        f.inlined = sorted(helpers)
 
 
 # ------------------------------------------------------------------------------------
@@ -151,15 +283,16 @@ def unwrap(n):
 # path enumeration over the structured tree
 # ------------------------------------------------------------------------------------
 class Path:
-    __slots__ = ("events", "exit", "conds")
+    __slots__ = ("events", "exit", "conds", "res")
 
-    def __init__(self, events=None, exit="fall", conds=None):
+    def __init__(self, events=None, exit="fall", conds=None, res=None):
         self.events = events or []
         self.exit = exit          # fall | continue | break | return | err
         self.conds = conds or []  # (cond node, branch label)
+        self.res = res            # 'ok' | 'err' | None: what an inlined helper returned on this path (consumed by `?`)
 
     def extend(self, other):
-        return Path(self.events + other.events, other.exit, self.conds + other.conds)
+        return Path(self.events + other.events, other.exit, self.conds + other.conds, other.res)
 
 
 MAX_PATHS = 20000
@@ -244,15 +377,45 @@ def expr_paths(n):
         return [Path([("break", n)], "break")]
     if k == "continue":
         return [Path([("continue", n)], "continue")]
+    if k == "inlined":
+        ps = [Path()]
+        if n.get("recv") is not None:
+            ps = _seq(ps, lambda: expr_paths(n["recv"]))
+        for a in n.get("args", []) or []:
+            ps = _seq(ps, lambda a=a: expr_paths(a))
+        conv = []
+        for p in block_paths(n["body"]):
+            res = None
+            if p.exit == "err":
+                res = "err"
+            elif p.exit in ("return", "fall"):
+                last = None
+                for kind_, nd_ in reversed(p.events):
+                    if kind_ == "return":
+                        last = nd_.get("e")
+                        break
+                    if kind_ == "tail":
+                        last = nd_
+                        break
+                t_ = text(last) if isinstance(last, dict) else ""
+                res = "ok" if t_.startswith("Ok(") else "err" if t_.startswith("Err(") else None
+            conv.append(Path(p.events, "fall", p.conds, res))
+        return _seq(ps, lambda: conv)
     if k == "try":
         ps = expr_paths(n["e"])
         out = []
+        inner = n["e"]
+        while isinstance(inner, dict) and inner.get("k") in ("await", "paren"):
+            inner = inner.get("e")
+        from_helper = isinstance(inner, dict) and inner.get("k") == "inlined"
         for p in ps:
             if p.exit != "fall":
                 out.append(p)
                 continue
-            out.append(Path(p.events + [("try-ok", n)], "fall", p.conds))
-            out.append(Path(p.events + [("try-err", n)], "err", p.conds))
+            if not (from_helper and p.res == "err"):
+                out.append(Path(p.events + [("try-ok", n)], "fall", p.conds))
+            if not (from_helper and p.res == "ok"):
+                out.append(Path(p.events + [("try-err", n)], "err", p.conds))
         return out
     if k == "closure":
         return [Path([("closure", n)])]
@@ -268,8 +431,9 @@ def expr_paths(n):
     ps = [Path()]
     for c in children(n):
         ps = _seq(ps, lambda c=c: expr_paths(c))
+    keep = k in ("await", "paren")
     if k in ("call", "mcall", "assign", "await", "struct"):
-        ps = [Path(p.events + [(k, n)], p.exit, p.conds) if p.exit == "fall" else p for p in ps]
+        ps = [Path(p.events + [(k, n)], p.exit, p.conds, p.res if keep else None) if p.exit == "fall" else p for p in ps]
     elif k == "binary" and n.get("op", "").endswith("=") and n.get("op") not in ("==", "!=", "<=", ">="):
         ps = [Path(p.events + [("assign", n)], p.exit, p.conds) if p.exit == "fall" else p for p in ps]
     return ps
@@ -277,8 +441,12 @@ def expr_paths(n):
 
 def block_paths(b):
     ps = [Path()]
-    for st in b.get("stmts", []):
+    stmts = b.get("stmts", [])
+    for i, st in enumerate(stmts):
         ps = _seq(ps, lambda st=st: stmt_paths(st))
+        if i == len(stmts) - 1 and st.get("k") == "expr" and not st.get("semi") and isinstance(st.get("e"), dict) and st["e"].get("k") not in ("if", "match", "block", "loop", "while", "for", "unsafe", "return", "break", "continue"):
+            # the block's value (used to tell what an inlined helper returns on this path)
+            ps = [Path(p.events + [("tail", st["e"])], p.exit, p.conds, p.res) if p.exit == "fall" else p for p in ps]
     return ps
 
 
